@@ -41,6 +41,12 @@ import ttconv.imsc.style_properties as imsc_styles
 
 LOGGER = logging.getLogger(__name__)
 
+def _report_unknown_style_attribute(attr: str):
+  '''Logs an attribute in the TT Style namespace that is not a supported style property and is therefore ignored
+  '''
+  if attr.startswith(f"{{{xml_ns.TTS}}}") and attr != SpanElement.ruby_attribute_qn:
+    LOGGER.warning("Unsupported style property ignored: %s", attr)
+
 class TTMLElement:
   '''Static information about a TTML element
   '''
@@ -594,6 +600,7 @@ class StyleElement(TTMLElement):
       prop = StyleProperties.BY_QNAME.get(attr)
 
       if prop is None:
+        _report_unknown_style_attribute(attr)
         continue
 
       try:
@@ -662,6 +669,8 @@ class InitialElement(TTMLElement):
       prop = StyleProperties.BY_QNAME.get(attr)
 
       if prop is None:
+
+        _report_unknown_style_attribute(attr)
 
         continue
 
@@ -751,6 +760,7 @@ class ContentElement(TTMLElement):
         prop = StyleProperties.BY_QNAME.get(attr)
 
         if prop is None:
+          _report_unknown_style_attribute(attr)
           continue
 
         try:
@@ -772,6 +782,10 @@ class ContentElement(TTMLElement):
       if not issubclass(parent_ctx.ttml_class, ContentElement):
         LOGGER.error("Set parent is not a content element")
         return
+
+      for attr in xml_elem.attrib:
+        if attr not in StyleProperties.BY_QNAME:
+          _report_unknown_style_attribute(attr)
 
       for attr in xml_elem.attrib:
         prop = StyleProperties.BY_QNAME.get(attr)
